@@ -62,6 +62,10 @@ EDITS = {
 }
 ATTR_EDITS = ["H.set_node_attributes(5, name='x')", "H.set_edge_attributes(5, name='x')", "H.__setitem__('name', 'y')",
               "H.add_node(1, color='b')"]
+# in-place changes of attribute values already present (the attribute records themselves stay the same objects)
+NESTED_EDITS = ["[a.__setitem__('MUT', 1) for a in (H.nodes[n] for n in list(H.nodes)[:2])]",
+                "[a.__setitem__('MUT', 1) for a in (H.edges[e] for e in list(H.edges)[:2])]",
+                "[v.append('MUT') for n in H.nodes for v in H.nodes[n].values() if isinstance(v, list)]"]
 AUTO_ADD = {"Hypergraph": "H.add_edge([1, 2])", "DiHypergraph": "H.add_edge(([1], [2]))",
             "SimplicialComplex": "H.add_simplex([1, 2, 3, 4, 5, 6])"}
 
@@ -163,17 +167,31 @@ def inv_twins(ctx):
             if e == AUTO_ADD[cls]:
                 _fresh(bad, kind, "twin", e, pre_tw, tw)
         # direction B: edit the source, the twin must not change
-        for e in edits[::3] + [AUTO_ADD[cls]]:
+        for e in edits[::3] + ATTR_EDITS + NESTED_EDITS + [AUTO_ADD[cls]]:
             s2 = spec.build(hist, ctx.ns)
             tw = _twin(kind, s2)
             tk = C.state_key(tw)
             pre_s = C.snapshot(s2)
             explore.apply_op(ctx.ns, s2, e)
-            if C.state_key(tw) != tk:
+            attr_edit = e in ATTR_EDITS or e in NESTED_EDITS
+            # independence of attribute records / nested values is promised for copy() only; for the other twins an
+            # attribute edit is made just to see that a *second* twin reflects it
+            if C.state_key(tw) != tk and (kind == "copy" or not attr_edit):
                 bad("edit-leaks", f"after `{e}` on the source its {kind} twin changed: "
                     f"{C.snap_diff(ts, _safe_snap(tw))}", kind)
             if e == AUTO_ADD[cls]:
                 _fresh(bad, kind, "source", e, pre_s, s2)
+            # a second twin of the same, now edited, object: equal to what the object is now (nothing remembered from the
+            # first twin may be served again)
+            try:
+                now = C.snapshot(s2)
+                tw2 = _twin(kind, s2)
+                t2 = C.snapshot(tw2)
+                if not C.snap_equal(now, t2, ordered=False):
+                    bad("twin-differs", f"a second {kind} twin, made after `{e}` on the source, differs from the source: "
+                        f"{C.snap_diff(now, t2)}", kind)
+            except Exception:  # noqa: BLE001 - an edit that left the source unreadable is C01-C03's business
+                pass
         if kind == "copy":
             # nested attribute values reached through copy() are independent, both ways
             tw = _twin(kind, src)
